@@ -31,6 +31,9 @@ ATOMS = [
     ("fstr-bracket", "f'{a[0]}{{x}}'"), ("fstr-triple", 'f"""{a}\n{b}"""'), ("fstr-rf", "rf'{a}\\d'"),
     ("concat", "'a' 'b'"), ("paren", "(a)"), ("list", "[a, b]"), ("dict", "{a: b}"), ("attr", "a.b"), ("attr-chain", "a.b.c"),
     ("str-formfeed", "'a\x0cb'"), ("str-vt", "'a\x0bb'"), ("str-fs", "'a\x1cb'"), ("str-nel", "'a\x85b'"), ("str-ls", "'a\u2028b'"),
+    ("attr-unicode", "\u00e9t\u00e9.b"), ("call-unicode", "stra\u00dfe(b).c"), ("subscript-unicode", "caf\u00e9[0].d"),
+    ("softkw-match-call", "match(b).c"), ("softkw-type-call", "type(a).__name__"), ("softkw-case-attr", "case.d"), ("softkw-underscore", "_(a).b"),
+    ("attr-of-match", "a.match"),
     ("attr-spaced", "a . b"), ("subscript", "a[0]"), ("call", "a(b)"), ("call-chain", "a.b(c).d"), ("call-kw", "a(b=c)"),
 ]
 TEMPLATES = [
@@ -59,7 +62,7 @@ def line_starts(src):
 class C14(Check):
     pid = "C14"
     level = "exploration"
-    rule = ("cases = texts built from 20 statement templates x 45 expression atoms in each hole (one statement: full product; two "
+    rule = ("cases = texts built from 20 statement templates x 53 expression atoms in each hole (one statement: full product; two "
             "statements: every template pair with the same atom), kept when tokenize and compile accept them; evaluations = sub-checks "
             "per text: ignored_regions vs STRING/f-string/COMMENT token spans, real_code length and characters outside regions, "
             "SourceLinesAdapter offset<->line round trips for every offset and line, logical_line_in for every physical line carrying "
@@ -71,7 +74,7 @@ class C14(Check):
     chunksize = 32
 
     def bound_text(self, tier):
-        return "one statement: 20 templates x 45 atoms (x45 for two-hole templates); two statements: template pairs"
+        return "one statement: 20 templates x 53 atoms (x53 for two-hole templates); two statements: template pairs"
 
     def cases(self, tier):
         out = []
